@@ -4,6 +4,7 @@
 package h
 
 import (
+	"encoding/json"
 	"fmt"
 	"sort"
 	"strconv"
@@ -59,6 +60,49 @@ type Val struct {
 	IsNum bool   `json:"isnum"`
 	IsInt bool   `json:"isint"`
 	N     int64  `json:"n"`
+}
+
+// UnmarshalJSON restores the Go-side representation (int64 numbers, []Val lists)
+// after a JSON round trip (replay files).
+func (v *Val) UnmarshalJSON(b []byte) error {
+	var raw struct {
+		K     string          `json:"k"`
+		V     json.RawMessage `json:"v"`
+		IsNum bool            `json:"isnum"`
+		IsInt bool            `json:"isint"`
+		N     int64           `json:"n"`
+	}
+	if err := json.Unmarshal(b, &raw); err != nil {
+		return err
+	}
+	v.K, v.IsNum, v.IsInt, v.N = raw.K, raw.IsNum, raw.IsInt, raw.N
+	switch raw.K {
+	case "num":
+		var n int64
+		if err := json.Unmarshal(raw.V, &n); err != nil {
+			return err
+		}
+		v.V = n
+	case "str":
+		var s string
+		if err := json.Unmarshal(raw.V, &s); err != nil {
+			return err
+		}
+		v.V = s
+	case "bool":
+		var x bool
+		if err := json.Unmarshal(raw.V, &x); err != nil {
+			return err
+		}
+		v.V = x
+	case "list":
+		var l []Val
+		if err := json.Unmarshal(raw.V, &l); err != nil {
+			return err
+		}
+		v.V = l
+	}
+	return nil
 }
 
 func NumVal(n int64) Val { return Val{K: "num", V: n} }
